@@ -74,7 +74,7 @@ class TaskSpec:
                                        ",".join(str(t) for t in self.occ))
 
 
-def request(peer, items):
+def request(peer, items, wire=None):
     """items: TaskSpec (schedule) or ('cancel', uid).  One METHOD per calendar, so schedules and cancels go in separate
     calendars of the same request text."""
     text, toks = [], []
@@ -86,6 +86,9 @@ def request(peer, items):
             text += t.ical_event()
             toks.append(t.token())
         text += ["END:VCALENDAR"]
+        if wire is not None:
+            # the text as the real serialiser (echsq, checkpoint files) writes these tasks
+            text = wire("\n".join(text) + "\n").rstrip("\n").split("\n")
     if canc:
         text += ["BEGIN:VCALENDAR", "VERSION:2.0", "METHOD:CANCEL"]
         for _, uid in canc:
@@ -271,7 +274,7 @@ def gen_history(rng, knobs):
                     owner = rng.choice([None] * 8 + [peer, rng.choice(USERS)])
                     items.append(TaskSpec(rng.choice(uids), occ, ms, dur, owner, use_rdate=rng.random() < 0.3,
                                           dur_form=rng.choice(knobs.get("dur_forms", [None]))))
-            op, its = request(peer, items)
+            op, its = request(peer, items, knobs.get("wire") if rng.random() < knobs.get("p_wire", 0.5) else None)
             ops.append(op); acts.append(("A", peer, its))
         elif r < 0.62:
             now += rng.choice([1, 1, 2, 3, 5, 11, 30])
